@@ -160,6 +160,7 @@ let dispatch (cmd : string) (args : sx list) : sx =
                 e_eag = list_ cand_ eag; e_laz = list_ cand_ laz; e_enum = list_ cand_ enum } in
       let (o, fams) = select e in
       L [w_outcome o; w_list w_fam fams]
+  | "persist_run", [h; ops] -> w_list w_n (prun_ids (list_ n_ h) (list_ (pair_ bool_ (pair_ nat_ n_)) ops))
   | "key_eq", [s1; p1; s2; p2] ->
       w_bool (ckey_eqb (cache_key (settings_ s1) (opt_ (list_ existence_) p1)) (cache_key (settings_ s2) (opt_ (list_ existence_) p2)))
   | _ -> Dispatch2.dispatch cmd args
